@@ -328,6 +328,8 @@ def check_case(case):
 
         from vk import cli
 
+        cli.use_case(case)
+
         d = tempfile.mkdtemp(prefix="vk14.")
         try:
             diff = cli.call_diff(segarr, d, method, case["ploidy"], case["purity"], case["male_ref"], case["female"], None, filters, None)
